@@ -53,6 +53,8 @@ class C18(Prop):
             c["g"] = rng.choice((1, 3, nsblk, nsblk + 1, N, N + 2))
             c["s"] = rng.choice((0, rng.randrange(0, N - 1)))
             c["n"] = rng.randint(1, N - c["s"])
+            ge = min(c["n"], c["g"])
+            c["k"] = rng.choice((0, 0, rng.randint(0, ge // 2), rng.randint(ge // 2, ge)))
         if kind == "reductions":
             c["g"] = rng.choice((3, nsblk, N + 1))
         return c
@@ -63,7 +65,8 @@ class C18(Prop):
 
     def corpus(self):
         b = {"nsblk": 8, "nsub": 3, "C": 4, "nbits": 8, "pol": "IQUV", "asc": False, "cal": False, "dseed": 1}
-        return [dict(b, kind="read_block"), dict(b, kind="read_plan", g=5, s=3, n=17), dict(b, kind="header", asc=True),
+        return [dict(b, kind="read_block"), dict(b, kind="read_plan", g=5, s=3, n=17, k=0), dict(b, kind="read_plan", g=4, s=0, n=10, k=3),
+                dict(b, kind="read_plan", g=16, s=1, n=8, k=5), dict(b, kind="header", asc=True),
                 dict(b, kind="reductions", g=5)]
 
     # ------------------------------------------------------------------
@@ -108,8 +111,13 @@ class C18(Prop):
                 res["dtype"] = str(np.asarray(r.read_block(0, 1).data).dtype)
             elif kind == "read_plan":
                 blocks = []
-                for nr, ii, arr in r.read_plan(gulp=case["g"], start=case["s"], nsamps=case["n"], quiet=True):
-                    blocks.append([int(nr), int(ii), [float(v) for v in np.array(arr, copy=True).ravel()], str(arr.dtype)])
+                res["perr"] = None
+                try:
+                    for nr, ii, arr in r.read_plan(gulp=case["g"], start=case["s"], nsamps=case["n"],
+                                                   skipback=case.get("k", 0), quiet=True):
+                        blocks.append([int(nr), int(ii), [float(v) for v in np.array(arr, copy=True).ravel()], str(arr.dtype)])
+                except Exception as e:  # noqa: BLE001
+                    res["perr"] = {"cls": exc_name(e), "after": len(blocks)}
                 res["blocks"] = blocks
             elif kind == "reductions":
                 ts = r.collapse(gulp=case["g"], quiet=True)
@@ -151,12 +159,22 @@ class C18(Prop):
         if kind == "read_plan":
             d = common.tmpdir()
             _, want = build(case, d)
-            C, g, s, n = case["C"], case["g"], case["s"], case["n"]
+            C, g, s, n, k = case["C"], case["g"], case["s"], case["n"], case.get("k", 0)
+            ge = min(n, g)
+            if obs["perr"] is not None:
+                e = obs["perr"]
+                if e["cls"] != "ValueError" or e["after"] != 0:
+                    return f"{tag}: read_plan(gulp={g}, nsamps={n}, skipback={k}) raised {e['cls']} after {e['after']} block(s)"
+                if 2 * k <= ge:
+                    return f"{tag}: read_plan rejected skipback {k} <= half the effective gulp {ge}"
+                return None
+            if k >= ge:
+                return f"{tag}: read_plan accepted skipback {k} >= effective gulp {ge}"
             got = []
             for j, (nr, ii, vals, dt) in enumerate(obs["blocks"]):
                 if len(vals) % C or len(vals) // C != nr or nr > g or nr == 0:
                     return f"{tag}: read_plan(gulp={g}) block {j} holds {len(vals) / C} samples, reports {nr}"
-                got.extend(vals)
+                got.extend(vals if j == 0 else vals[k * C:])
             w = want[s:s + n].ravel()
             if len(got) != len(w) or not np.allclose(got, w, rtol=1e-5, atol=1e-5):
                 return f"{tag}: read_plan(gulp={g}, start={s}, nsamps={n}) delivers {len(got) // C} samples; the range has {n}"
@@ -185,7 +203,7 @@ class C18(Prop):
         if case["kind"] == "read_block":
             return [f"C18 rb {case['nsblk']} {case['nsub']} {x['s']} {x['n']}" for x in obs["samples"]]
         if case["kind"] == "read_plan":
-            return [f"C18 plan {case['nsblk']} {case['nsub']} {case['g']} {case['s']} {case['n']} 0"]
+            return [f"C18 plan {case['nsblk']} {case['nsub']} {case['g']} {case['s']} {case['n']} {case.get('k', 0)}"]
         return []
 
     def model_compare(self, case, obs, answers):
@@ -209,7 +227,10 @@ class C18(Prop):
             return None
         t = answers[0]
         if not t.startswith("ok"):
-            return f"model {t[:40]}"
+            e = obs.get("perr")
+            return None if (e and e["after"] == 0 and t == f"err {e['cls']}") else f"model {t[:40]} vs impl {e}"
+        if obs.get("perr"):
+            return f"impl raised {obs['perr']}, model ok"
         parts = t[3:].split(" ; ")
         if len(parts) != len(obs["blocks"]):
             return f"read_plan: impl {len(obs['blocks'])} blocks vs model {len(parts)}"
